@@ -247,7 +247,7 @@ func isWriteAccess(fa *ssa.FieldAddr) bool {
 func (e *Engine) pipelineObligations(prop string) []*Oblig {
 	var out []*Oblig
 	switch prop {
-	case "C18":
+	case "C18", "C19":
 		out = append(out, e.lockHeld(prop)...)
 	case "C16":
 		out = append(out, e.joinObligations(prop, []string{"github.com/goblimey/go-ntrip/apps/rtcmlogger.start"})...)
